@@ -224,19 +224,43 @@ func detectZIPFormat(r io.ReaderAt, size int64) (Format, error) {
 		}
 	}
 
-	// Check for Office Open XML markers
-	for _, f := range zr.File {
-		switch {
-		case f.Name == "[Content_Types].xml":
-			// This is an OOXML file - check for specific format markers
-			continue
-		case strings.HasPrefix(f.Name, "word/"):
-			return DOCX, nil
-		case strings.HasPrefix(f.Name, "xl/"):
-			return XLSX, nil
-		case strings.HasPrefix(f.Name, "ppt/"):
-			return PPTX, nil
+	// Check for Office Open XML by the package's main part. The answer must not
+	// depend on the order of the archive members: an XLSX may carry a stray or
+	// embedded word/ entry ahead of xl/workbook.xml (and the other way round).
+	hasMember := func(name string) bool {
+		for _, f := range zr.File {
+			if f.Name == name {
+				return true
+			}
 		}
+		return false
+	}
+	switch {
+	case hasMember("word/document.xml"):
+		return DOCX, nil
+	case hasMember("xl/workbook.xml"):
+		return XLSX, nil
+	case hasMember("ppt/presentation.xml"):
+		return PPTX, nil
+	}
+
+	// No main part under its conventional name: fall back to the part
+	// directories, in a fixed order rather than in archive order.
+	hasDir := func(prefix string) bool {
+		for _, f := range zr.File {
+			if strings.HasPrefix(f.Name, prefix) {
+				return true
+			}
+		}
+		return false
+	}
+	switch {
+	case hasDir("word/"):
+		return DOCX, nil
+	case hasDir("xl/"):
+		return XLSX, nil
+	case hasDir("ppt/"):
+		return PPTX, nil
 	}
 
 	return Unknown, nil
